@@ -15,7 +15,8 @@ ENGINE = 'E1 product'
 COEFFS = ['100.5 1.3', 'harmonic  12.0   3', 'fourier 1e-3 -0.5 2', '7 # C_R N_R', 'cosine/periodic 72.5 -1 1   # C_R O_1 H_', '-3.25',
           '0.105000 3.430851 # C_R', 'class2 1.0 2.0 -3.0 4.0e+2   #  two  words', '1', 'zero']
 CELLS = [('orthorhombic', np.diag([10.0, 11, 12])), ('positive tilts', np.array([[10.0, 0, 0], [3, 11, 0], [2, 1.5, 12]])),
-         ('negative tilts', np.array([[10.0, 0, 0], [-3, 11, 0], [-2, 1.5, 12]])), ('tilt that prints as 0.000000', np.array([[10.0, 0, 0], [1e-8, 11, 0], [0, 0, 12]])), ('no cell', None)]
+         ('mixed-sign tilts', np.array([[10.0, 0, 0], [-3, 11, 0], [-2, 1.5, 12]])), ('all tilts negative', np.array([[10.0, 0, 0], [-3, 11, 0], [-2, -1.5, 12]])),
+         ('only yz tilted, negative', np.array([[10.0, 0, 0], [0, 11, 0], [0, -2.5, 12]])), ('tilt that prints as 0.000000', np.array([[10.0, 0, 0], [1e-8, 11, 0], [0, 0, 12]])), ('no cell', None)]
 KOPT = [(0, 0), (1, 1), (2, 3), (3, 1), (3, 3), (2, 0)]          # (number of types, number of terms) per kind
 KSHAPES_Q = [(0, 0, 0, 0), (1, 1, 1, 1), (2, 2, 2, 2), (4, 4, 4, 4), (2, 1, 0, 4), (3, 0, 2, 1), (0, 3, 5, 0), (5, 5, 1, 2)]   # indices into KOPT
 ATYPES = [('two types', [0, 1, 1, 0], ['C', 'N'], [12.0107, 14.0067]), ('one type', [0, 0, 0, 0], ['C'], [12.0107]),
@@ -215,9 +216,9 @@ def run(sc, ctx):
             if e1 or e2 or raw_state(l1) != raw_state(b) or raw_state(l2) != raw_state(b):
                 bad('routes', 'load-route', 'Atoms.load(path) / Atoms.load(file, "lmpdat") do not give the same object as load_lmpdat: %r' % ((e1 or e2 or ('', ''))[0],))
     nk = sum(1 for ko in sc['ks'] if KOPT[ko][1])
-    key = 'kinds=%d tables=%d %s %s' % (nk, sc['tables'], style, 'tilted' if sc['cell'] in (1, 2) else 'other')
+    key = 'kinds=%d tables=%d %s %s' % (nk, sc['tables'], style, 'tilted' if sc['cell'] in (1, 2, 3, 4) else 'other')
     out['outcomes'][key] = 1
-    if nk >= 2 and (sc['cell'] in (1, 2) or '#' in COEFFS[sc['co']]):
+    if nk >= 2 and (sc['cell'] in (1, 2, 3, 4) or '#' in COEFFS[sc['co']]):
         out['nontrivial'] = 1
     if sc['cell'] == 2 and sc['ks'] == [5, 5, 1, 2] and sc['co'] == 4 and sc['st'] == 0 and sc['tables'] and sc['ch'] == 1 and sc['xy'] == 1 and sc['lab'] == 1:
         out['samples'] = [dict(scenario=sc, text=T1)]
